@@ -849,7 +849,7 @@ pub fn apply(s: &mut Incent, step: &Step, ctx: &mut Ctx) {
         Op::Expand { amount, dur, receiver, provided, extra } => do_position(s, ctx, &before, actor, false, *amount, *dur, *receiver, *provided, *extra, step.fault),
         Op::Close { dur } => do_close(s, ctx, &before, actor, *dur, step.fault),
         Op::Withdraw => do_withdraw(s, ctx, &before, actor, step.fault),
-        Op::Helper { amounts, dur, funds_a, allow_b } => do_helper(s, ctx, &before, actor, *amounts, *dur, *funds_a, *allow_b, step.fault),
+        Op::Helper { amounts, dur, funds_a, allow_b, slippage } => do_helper(s, ctx, &before, actor, *amounts, *dur, *funds_a, *allow_b, slippage, step.fault),
         Op::OpenFlow { asset, declared, sent, fee_sent, extra, start, end, label } => {
             do_open_flow(s, ctx, &before, actor, *asset, *declared, *sent, *fee_sent, *extra, *start, *end, label.clone(), step.fault)
         }
@@ -1071,12 +1071,19 @@ fn do_withdraw(s: &mut Incent, ctx: &mut Ctx, before: &Obs, actor: usize, fault:
 }
 
 #[allow(clippy::too_many_arguments)]
-fn do_helper(s: &mut Incent, ctx: &mut Ctx, before: &Obs, actor: usize, amounts: [u128; 2], dur: u64, funds_a: u128, allow_b: u128, fault: Fault) -> Option<Obs> {
+#[allow(clippy::too_many_arguments)]
+fn do_helper(s: &mut Incent, ctx: &mut Ctx, before: &Obs, actor: usize, amounts: [u128; 2], dur: u64, funds_a: u128, allow_b: u128, slippage: &Option<String>, fault: Fault) -> Option<Obs> {
     let op = "helper_deposit";
     let who = s.actors[actor];
     let (Some(helper), Some(pair)) = (s.helper.clone(), s.pair.clone()) else {
         ctx.trace("helper_deposit:skipped");
         return Some(before.clone());
+    };
+    // the pool as the pair reports it right before the deposit (for the C15 verdict)
+    let pool_before: Option<white_whale_std::pool_network::pair::PoolResponse> = if slippage.is_some() {
+        query(&s.app, &pair, &white_whale_std::pool_network::pair::QueryMsg::Pool {}).ok()
+    } else {
+        None
     };
     let mut msgs = s.set_allowance_msgs(A_PB, who, &helper, allow_b);
     msgs.push(wasm_exec(
@@ -1084,7 +1091,7 @@ fn do_helper(s: &mut Incent, ctx: &mut Ctx, before: &Obs, actor: usize, amounts:
         &frontend_helper::ExecuteMsg::Deposit {
             pair_address: pair,
             assets: [s.asset(A_PA, amounts[0]), s.asset(A_PB, amounts[1])],
-            slippage_tolerance: None,
+            slippage_tolerance: slippage.as_ref().and_then(|t| std::str::FromStr::from_str(t).ok()),
             unbonding_duration: dur,
         },
         if funds_a > 0 { vec![coin(funds_a, D_PA)] } else { vec![] },
@@ -1092,6 +1099,27 @@ fn do_helper(s: &mut Incent, ctx: &mut Ctx, before: &Obs, actor: usize, amounts:
     let Done { r, after } = run_tx(s, ctx, who, msgs, fault, op)?;
     let ok = r.outcome.is_ok();
     let i_inc = s.i_inc();
+    // C15: the tolerance given to the helper binds the pair's deposit exactly as a direct deposit would
+    if let (Some(t), Some(pool)) = (slippage, &pool_before) {
+        use crate::scen::pool2::PType;
+        use crate::scen::pool2_oracle::{deposit_slippage_verdict, Slip};
+        let amt = |a: usize| pool.assets.iter().find(|x| x.info == s.assets[a]).map(|x| x.amount.u128()).unwrap_or(0);
+        let reserves = [amt(A_PA), amt(A_PB)];
+        if !pool.total_share.is_zero() {
+            let t18 = crate::big::dec_atomics(t);
+            let v = deposit_slippage_verdict(&PType::Cp, amounts, reserves, t18);
+            if ok {
+                ctx.eval("C15");
+                ctx.probe("helper_deposit_with_tolerance_accepted");
+                if v == Slip::MustReject {
+                    ctx.fail("C15", "deposit_accepted_beyond_tolerance", "via_frontend_helper", None,
+                        format!("deposit {amounts:?} into R {reserves:?} through the frontend helper accepted with slippage_tolerance {t}"));
+                }
+            }
+            // (a rejection cannot be attributed to the tolerance on this path: the helper's reply only
+            // sees the outermost context of the pair's error, as on a real chain)
+        }
+    }
     if ok {
         ctx.eval("C11");
         ctx.probe("helper_deposit_completed");
